@@ -477,6 +477,7 @@ func runC19(c *Ctx) {
 	} else {
 		c.Fail("NETRC-LOOKUP", "netrc.GetMachineForNameAndFilePath", token.NoPos, "not found")
 	}
+	c19ProviderStateless(c)
 }
 
 // c19ExactMatch inspects the uses of RemoteToken's address parameter in one implementation.
